@@ -69,6 +69,13 @@ def h_generator_latex(V, family, N, seed):
     s = rf"\sum_{{i \in S}} mu {b}_{{i}} {a}_{{i}}"
     want = sum(term(mu, (B, i), (A, i)) for i in sites)
     cases.append(('same-site-order-as-written', s, dict(mu=mu, S=sites), want))
+    # 8. a site repeated NON-adjacently with odd operators in between: the product is ordered as written before same-site operators meet
+    s = rf"\sum_{{i,j \in P}} w {a}_{{i}} {a}_{{j}} {b}_{{i}} {b}_{{j}}"
+    want = sum(term(w, (A, i), (A, j), (B, i), (B, j)) for i, j in up + down)
+    cases.append(('interleaved-repeated-sites', s, dict(w=w, P=up + down), want))
+    s = rf"\sum_{{i,j \in P}} w {b}_{{j}} {a}_{{i}} {d}_{{j}} {b}_{{i}} {a}_{{j}}"
+    want = sum(term(w, (B, j), (A, i), (D, j), (B, i), (A, j)) for i, j in up + down)
+    cases.append(('interleaved-repeated-sites-five-operators', s, dict(w=w, P=up + down), want))
     gen = mps.Generator(N, ops)
     for label, s, par, want in cases:
         H = gen.mpo_from_latex(s, parameters=par)
@@ -121,6 +128,32 @@ def h_sample_probabilities(V, family, N, seed):
     V.check('oracle:Born-probabilities-sum-to-one', abs(tot - 1) <= 1e-9)
 
 
+def h_generate_mpo_dtypes(V, family, N):
+    """ the MPO is complex whenever an amplitude OR an operator is (complex operators with real amplitudes; NumPy complex scalars) """
+    import warnings
+    import yastn.tn.mps as mps
+    ops = _ops(family)
+    I = mps.product_mpo(ops.I(), N)
+    if family.startswith('spin') and hasattr(ops, 'y') and family.split('-')[1] in ('dense', 'Z2'):
+        x, y = ops.x(), ops.y()
+        terms = [mps.Hterm(1.0, (0, 1), (y, y)), mps.Hterm(0.5, (1, 2), (x, x)), mps.Hterm(-0.25, (0, 2), (x, y))]
+        want = jw(ops, N, [(y, 0), (y, 1)]) + 0.5 * jw(ops, N, [(x, 1), (x, 2)]) - 0.25 * jw(ops, N, [(x, 0), (y, 2)])
+        H = mps.generate_mpo(I, terms)
+        V.check('complex-operators-with-real-amplitudes:dense-matrix-is-the-sum', close(dense_in_space(ops, H), want))
+        H = mps.generate_mpo(I, terms[:1])
+        V.check('complex-operators-with-real-amplitudes:single-term', close(dense_in_space(ops, H), jw(ops, N, [(y, 0), (y, 1)])))
+    if family.startswith('fermion'):
+        a, b = ops.cp(), ops.c()
+    else:
+        a, b = ops.sp(), ops.sm()
+    for name, amp in (('complex', 1j), ('numpy.complex128', np.complex128(0.5 + 1j)), ('numpy.complex64', np.complex64(1j)), ('numpy.float32', np.float32(0.5))):
+        with warnings.catch_warnings():
+            warnings.simplefilter('ignore')
+            H = mps.generate_mpo(I, [mps.Hterm(amp, (0, 1), (a, b)), mps.Hterm(0.5, (1, 0), (a, b))])
+        want = complex(amp) * jw(ops, N, [(a, 0), (b, 1)]) + 0.5 * jw(ops, N, [(a, 1), (b, 0)])
+        V.check(f'amplitude-of-type-{name}-enters-with-its-full-value', close(dense_in_space(ops, H), want))
+
+
 def units_c07(tier):
     U = []
     th = tier == 'thorough'
@@ -129,4 +162,5 @@ def units_c07(tier):
             for seed in (0, 1) if th else (0,):
                 U.append(('h_generator_latex', f"{family},N={N},seed={seed}", dict(family=family, N=N, seed=seed)))
                 U.append(('h_sample_probabilities', f"{family},N={N},seed={seed}", dict(family=family, N=N, seed=seed)))
+        U.append(('h_generate_mpo_dtypes', f"{family},N=3", dict(family=family, N=3)))
     return U
